@@ -314,5 +314,10 @@ def build():
         ('first_present_non_null_left_to_right', 'r == spec_coalesce(ctx@, bytecode@, 0)'),
     ], loops={0: dict(ghost='it', invariant=[('skipped_so_far_were_null_or_absent', 'spec_coalesce(ctx@, bytecode@, 0) == spec_coalesce(ctx@, bytecode@, it.index@ as int)')])},
         props=('C08', 'C01')))
+    # C01 / C12 mechanism: the interpreter that runs a macro body continues the caller's call depth (a fresh one would give every
+    # level of a cyclic reference chain through a macro body a new budget: the depth guard never fires and the stack overflows)
+    for op in U.ops:
+        if op[0] == 'extract' and op[1]['selector'] in ('fn all_impl', 'fn exists_impl', 'fn exists_one_impl', 'fn filter_list', 'fn filter_map', 'fn map_list', 'fn map_map', 'fn reduce_impl'):
+            op[1]['annot'].after[('stmt', 'let interp =', 0)] = ('the_body_runs_at_the_callers_depth', 'interp@.depth == ctx@.depth', ('C01', 'C12'))
     U.raw(C.FOOTER, 'footer')
     return U
